@@ -61,6 +61,17 @@ var (
 	allNames  = []string{"a", "b", "c", "d", "e", "s.x", "s.y", "g", "h", "m", "n", "s.z", "z", "l.0", "l.1", "l", "s"}
 )
 
+// failD reports a failed oracle of C02 / C08. Under C07 the engine runs as a workload for the
+// run-wide monitors only (panic, fatal error, termination): what a read returns is then a
+// foreign observation.
+func (e *E) failD(oracle, op string, detail map[string]string, format string, a ...interface{}) {
+	if e.Prop == "C07" {
+		e.R.Note("C08", oracle+"/"+op)
+		return
+	}
+	e.R.FailD(oracle, op, detail, format, a...)
+}
+
 func (e *E) tok() string {
 	e.ctr++
 	return "v" + strconv.Itoa(e.ctr) + "x"
@@ -880,28 +891,28 @@ func (e *E) expect(op, what string, o Outcome, got string, err error) {
 		if err != nil {
 			kind := "resolves"
 			if isCycle(err) {
-				e.R.FailD("false-cycle", op, map[string]string{"setting": what}, "%s of %s reports a cyclic reference, but the evaluation never re-enters a reference (expected %s): %v", op, what, o.V.Canon(), err)
+				e.failD("false-cycle", op, map[string]string{"setting": what}, "%s of %s reports a cyclic reference, but the evaluation never re-enters a reference (expected %s): %v", op, what, o.V.Canon(), err)
 			}
-			e.R.FailD("resolves", op, map[string]string{"setting": what}, "%s of %s failed (%v) but it %s to %s", op, what, err, kind, o.V.Canon())
+			e.failD("resolves", op, map[string]string{"setting": what}, "%s of %s failed (%v) but it %s to %s", op, what, err, kind, o.V.Canon())
 		}
 		if got != o.V.Canon() {
-			e.R.FailD("value", op, map[string]string{"setting": what, "got": got, "want": o.V.Canon()}, "%s of %s = %s, late-bound substitution gives %s", op, what, got, o.V.Canon())
+			e.failD("value", op, map[string]string{"setting": what, "got": got, "want": o.V.Canon()}, "%s of %s = %s, late-bound substitution gives %s", op, what, got, o.V.Canon())
 		}
 	case ECycle:
 		if err == nil {
-			e.R.FailD("cycle-is-error", op, map[string]string{"setting": what, "got": got}, "%s of %s = %s, but the reference graph is cyclic: expected a cyclic-reference error", op, what, got)
+			e.failD("cycle-is-error", op, map[string]string{"setting": what, "got": got}, "%s of %s = %s, but the reference graph is cyclic: expected a cyclic-reference error", op, what, got)
 		}
 		e.R.Fault("cyclic reference graph read")
 	case EUnresolved:
 		if err == nil {
-			e.R.FailD("unresolved-is-error", op, map[string]string{"setting": what, "got": got}, "%s of %s = %s, but a reference in it cannot be resolved anywhere: expected an error, never a silently empty value", op, what, got)
+			e.failD("unresolved-is-error", op, map[string]string{"setting": what, "got": got}, "%s of %s = %s, but a reference in it cannot be resolved anywhere: expected an error, never a silently empty value", op, what, got)
 		}
 		e.R.Fault("unresolvable reference read")
 	case EOper:
 		if err == nil {
-			e.R.FailD("error-operator", op, map[string]string{"setting": what, "got": got}, "%s of %s = %s, but ${x:?%s} must fail", op, what, got, o.Msg)
+			e.failD("error-operator", op, map[string]string{"setting": what, "got": got}, "%s of %s = %s, but ${x:?%s} must fail", op, what, got, o.Msg)
 		} else if !strings.Contains(err.Error(), o.Msg) && !strings.Contains(fmt.Sprint(rootReason(err)), o.Msg) {
-			e.R.FailD("error-operator", op, map[string]string{"setting": what}, "%s of %s failed with %v, expected the message %q of the :? operator", op, what, err, o.Msg)
+			e.failD("error-operator", op, map[string]string{"setting": what}, "%s of %s failed with %v, expected the message %q of the :? operator", op, what, err, o.Msg)
 		}
 		e.R.Fault("error operator fired")
 	case EType:
@@ -911,7 +922,7 @@ func (e *E) expect(op, what string, o Outcome, got string, err error) {
 	case EAny:
 	case EErr:
 		if err == nil {
-			e.R.FailD("unresolved-is-error", op, map[string]string{"setting": what, "got": got}, "%s of %s = %s, but several settings it needs cannot be evaluated: expected an error", op, what, got)
+			e.failD("unresolved-is-error", op, map[string]string{"setting": what, "got": got}, "%s of %s = %s, but several settings it needs cannot be evaluated: expected an error", op, what, got)
 		}
 	}
 }
@@ -1123,7 +1134,7 @@ func (e *E) Read() {
 		e.R.Probe("varexp: FlattenedKeys / CompareConfigs on a config with references")
 		if known {
 			if strings.Join(keys, "\x00") != strings.Join(want, "\x00") {
-				e.R.FailD("flatkeys", "FlattenedKeys", map[string]string{"got": strings.Join(keys, ","), "want": strings.Join(want, ",")},
+				e.failD("flatkeys", "FlattenedKeys", map[string]string{"got": strings.Join(keys, ","), "want": strings.Join(want, ",")},
 					"FlattenedKeys = %v; following every reference that evaluates to a container and reporting everything else as a key of its own gives %v", keys, want)
 			}
 			uniq := map[string]bool{}
@@ -1135,7 +1146,7 @@ func (e *E) Read() {
 				kept[k] = true
 			}
 			if len(d[diff.Add]) > 0 || len(d[diff.Remove]) > 0 || len(kept) != len(uniq) {
-				e.R.FailD("flatkeys", "CompareConfigs", nil, "a config with references compared with itself: kept %v added %v removed %v; its keys are %v", d[diff.Keep], d[diff.Add], d[diff.Remove], want)
+				e.failD("flatkeys", "CompareConfigs", nil, "a config with references compared with itself: kept %v added %v removed %v; its keys are %v", d[diff.Keep], d[diff.Add], d[diff.Remove], want)
 			}
 			e.R.Probe("varexp: FlattenedKeys compared with the model")
 		}
@@ -1283,14 +1294,14 @@ func (e *E) readAll() {
 	}
 	if err != nil {
 		if isCycle(err) {
-			e.R.FailD("false-cycle", "Unpack", nil, "Unpack of the root reports a cyclic reference, but no setting's evaluation re-enters a reference: %v", err)
+			e.failD("false-cycle", "Unpack", nil, "Unpack of the root reports a cyclic reference, but no setting's evaluation re-enters a reference: %v", err)
 		}
-		e.R.FailD("resolves", "Unpack", nil, "Unpack of the root failed (%v) although every setting resolves", err)
+		e.failD("resolves", "Unpack", nil, "Unpack of the root failed (%v) although every setting resolves", err)
 	}
 	for _, p := range e.settingNames() {
 		got := canonOf(lookupGo(m, p))
 		if got != outs[p].V.Canon() {
-			e.R.FailD("value", "Unpack", map[string]string{"setting": p, "got": got, "want": outs[p].V.Canon()}, "Unpack: setting %s = %s, late-bound substitution gives %s", p, got, outs[p].V.Canon())
+			e.failD("value", "Unpack", map[string]string{"setting": p, "got": got, "want": outs[p].V.Canon()}, "Unpack: setting %s = %s, late-bound substitution gives %s", p, got, outs[p].V.Canon())
 		}
 	}
 }
